@@ -235,7 +235,7 @@ fn all_configs(ctx: &Ctx, st: &mut Stats) -> Vec<Violation> {
 }
 
 pub fn run(ctx: &Ctx, st: &mut Stats) -> Vec<Violation> {
-    let mut v = run_proptest(ctx, st, "random", ctx.cases(60_000, 600_000), strategy, check);
+    let mut v = run_proptest(ctx, st, "random", ctx.cases(60_000, 3_000_000), strategy, check);
     if !v.is_empty() {
         return v;
     }
